@@ -188,7 +188,7 @@ PROPS["C03"] = {
 
 PROPS["C17"] = {
     "title": "Every opening-book line is a legal game (table-safety and termination clause)",
-    "groups": [{"crate": "core", "module": "c17", "timeout_q": 900, "timeout_t": 3000, "mem_q": 30}],
+    "groups": [{"crate": "core", "module": "c17", "timeout_q": 900, "timeout_t": 3000, "mem_q": 20, "jobs": 3}],
     "functions": ["chess_lookup::BookMovesIter::next", "BookMoves::into_iter", "INITIAL_BOOOK_MOVES / EMPTY_BOOK_MOVES", "lichess_book::BOOK (real 87204-word table)"],
     "bounds": "none for the decided clause: one symbolic node index over all 87204 table positions (also positions no traversal reaches)",
     "outside": "NOT DECIDED: that each book move is legal in the position reached from the standard start (the position at a node is a function of the whole path, a finite walk of ~29k concrete games with no symbolic variable: "
